@@ -394,9 +394,9 @@ def parts(tier):
     q = tier == "quick"
     return [SMT("header", "vflib.props.c19:kernel_header", {"timeout": 60 if q else 600}, timeout=400 if q else 900, mode="SMT-S"),
             SMT("preamble", "vflib.props.c19:kernel_preamble", {}, timeout=400, mode="SMT-S"),
-            CH("header_bounded", "vflib.props.c19:scen_header_bounded", {"maxlen": 4 if q else 6}, shards=1, timeout=170 if q else 300, path_timeout=60, mode="CH-P"),
+            CH("header_bounded", "vflib.props.c19:scen_header_bounded", {"maxlen": 4 if q else 6}, shards=1, timeout=170 if q else 200, path_timeout=60, mode="CH-P"),
             CH("end_to_end", "vflib.props.c19:scen_e2e", {"frameworks": ["base", "pydantic"] if q else ["base", "pydantic", "attrs", "dataclasses"]},
-               shards=16, timeout=170 if q else 300, path_timeout=30)]
+               shards=16, timeout=170 if q else 200, path_timeout=30)]
 
 
 META = {
